@@ -13,6 +13,7 @@ func init() { register("C03", checkC03) }
 func checkC03(c *Check) {
 	c.connUses("C03.1 connection-use")
 	c.readerFraming("C03.1 framing")
+	c.readerHandoff()
 	c.updateBodyPrivate("C03.3 delivered-slice-private")
 	c.handlerDiscipline("C03.4 handler-discipline")
 	// single sender / single receiver of the message channel
